@@ -7,11 +7,13 @@ import (
 	"fmt"
 	"math/rand"
 	"os"
+	"reflect"
 	"strconv"
 	"strings"
 	"sync"
 	"testing"
 	"time"
+	"unsafe"
 
 	"github.com/alicebob/miniredis/v2"
 
@@ -181,7 +183,8 @@ type c08Client struct {
 	cur     *c08Conn
 	zombies []*c08Conn        // abandoned by the client, not yet cleaned up by their node
 	closed  map[string]string // connID -> how it ended
-	unsure  string            // the server dropped cur on its own; no verdicts until next connect
+	unsure  string            // the node dropped cur on its own and the harness has not yet played the adapter cleanup: no verdicts
+	lastNode int              // node of the most recent connect
 	broken  string            // signature of the running failure episode ("" = last lookup fine)
 	cleaned int               // lookup rounds for which a just-observed cleanup of an abandoned connection counts as the cause of a loss
 }
@@ -220,6 +223,10 @@ func c08NewWorld(t *testing.T, run *vk.Run, backend string, ttl time.Duration, n
 		if sweeper {
 			sc.HeartbeatTimeout = 150 * time.Millisecond
 			sc.CleanupInterval = 40 * time.Millisecond
+		} else {
+			// the real sweeper runs often, but only connections the harness ages
+			// explicitly (sweepCur) are ever stale
+			sc.CleanupInterval = 2 * time.Millisecond
 		}
 		w.nodes = append(w.nodes, newMiniNode(t, miniOpts{NodeID: c08NodeName(i), Store: st, Session: sc, BruteForce: bf, RateLimit: rl, ConnStateTTL: ttl, NoCommands: true}))
 	}
@@ -277,6 +284,7 @@ func (w *c08World) harnessError(format string, a ...any) {
 // (first-connect path for a fresh client, challenge-response afterwards). Whatever
 // connection the client had before is abandoned without the server being told.
 func (w *c08World) connect(cl *c08Client, node int) bool {
+	w.settleDropped(cl)
 	n := w.nodes[node]
 	c0 := w.be.sync()
 	mc, err := n.Connect("")
@@ -308,6 +316,7 @@ func (w *c08World) connect(cl *c08Client, node int) bool {
 	cl.cur = &c08Conn{mc: mc, node: node, id: mc.ConnID, hs: sp, lastKA: sp, chain: true}
 	cl.unsure = ""
 	cl.cleaned = 0
+	cl.lastNode = node
 	w.ev(cl, "c"+strings.ToUpper(string(rune('a'+node))), fmt.Sprintf("connect@%s=%s", n.NodeID, mc.ConnID))
 	w.run.Count("handshakes", 1)
 	if len(cl.zombies) > 0 && cl.zombies[len(cl.zombies)-1].node != node {
@@ -364,6 +373,103 @@ func (w *c08World) heartbeat(cl *c08Client) bool {
 	w.ev(cl, "hb", "heartbeat "+c.id)
 	w.run.Count("heartbeats", 1)
 	return true
+}
+
+// heartbeatZombie delivers a late / in-flight heartbeat on an abandoned connection that
+// its node has not cleaned up yet. It must not change where the client is found.
+func (w *c08World) heartbeatZombie(cl *c08Client, newest bool) bool {
+	if len(cl.zombies) == 0 {
+		return false
+	}
+	z := cl.zombies[0]
+	kind := "hO"
+	if newest {
+		z = cl.zombies[len(cl.zombies)-1]
+		kind = "hz"
+	}
+	c0 := w.be.sync()
+	_ = z.mc.Send(&packet.TransferPacket{PacketType: packet.Heartbeat})
+	r0 := time.Now()
+	z.mc.DrainRaw()
+	z.lastKA = c08Span{c0, r0}
+	w.ev(cl, kind, fmt.Sprintf("late-heartbeat-on-abandoned %s@%s", z.id, w.nodes[z.node].NodeID))
+	w.run.Count("zombie_heartbeats|"+w.be.name, 1)
+	if cl.cur != nil && cl.cur.node != z.node {
+		w.run.Count("zombie_heartbeat_while_current_elsewhere|"+w.be.name, 1)
+	}
+	return true
+}
+
+// c08Age makes a control connection look idle for two hours (white-box: LastActiveAt is
+// guarded by the connection's unexported mutex, which is taken properly).
+func c08Age(cc *session.ControlConnection) bool {
+	v := reflect.ValueOf(cc).Elem()
+	f := v.FieldByName("mu")
+	if !f.IsValid() || !f.CanAddr() || f.Type() != reflect.TypeOf(sync.RWMutex{}) {
+		return false
+	}
+	mu := (*sync.RWMutex)(unsafe.Pointer(f.UnsafeAddr()))
+	mu.Lock()
+	cc.LastActiveAt = time.Now().Add(-2 * time.Hour)
+	mu.Unlock()
+	return true
+}
+
+// sweepCur: the client falls silent and the node's real stale-connection sweeper closes
+// the client's current (possibly only) connection; the harness then plays the adapter
+// (its read loop ends because the node closed the transport -> CloseConnection).
+func (w *c08World) sweepCur(cl *c08Client) bool {
+	c := cl.cur
+	if c == nil || cl.unsure != "" {
+		return false
+	}
+	n := w.nodes[c.node]
+	cc := n.SM.GetControlConnection(c.id)
+	if cc == nil {
+		w.harnessError("sweep: current connection %s not in the registry of %s", c.id, n.NodeID)
+		return false
+	}
+	w.be.sync()
+	if !c08Age(cc) {
+		w.harnessError("sweep: cannot age the connection (ControlConnection layout changed)")
+		return false
+	}
+	deadline := time.Now().Add(5 * time.Second)
+	for !c.mc.ServerClosedTransport() {
+		if time.Now().After(deadline) {
+			w.run.Count("watchdog_sweep", 1)
+			w.harnessError("sweep: the node did not sweep %s within 5 s", c.id)
+			return false
+		}
+		time.Sleep(500 * time.Microsecond)
+	}
+	c.mc.CloseByPeer()
+	cl.closed[c.id] = "swept"
+	cl.cur = nil
+	w.ev(cl, "sw", fmt.Sprintf("swept-by-node+adapter-cleanup %s@%s", c.id, n.NodeID))
+	w.run.Count("current_swept|"+w.be.name, 1)
+	if len(cl.zombies) == 0 {
+		w.run.Count("last_conn_swept|"+w.be.name, 1)
+	}
+	return true
+}
+
+// settleDropped plays the adapter for a current connection its node dropped on its own:
+// from then on the client is not connected.
+func (w *c08World) settleDropped(cl *c08Client) {
+	c := cl.cur
+	if c == nil || cl.unsure == "" {
+		return
+	}
+	c.mc.CloseByPeer()
+	cl.closed[c.id] = "swept"
+	cl.cur = nil
+	cl.unsure = ""
+	w.trace = append(w.trace, fmt.Sprintf("c%d:adapter-cleanup of dropped current %s", cl.idx, c.id))
+	w.run.Count("current_swept|"+w.be.name, 1)
+	if len(cl.zombies) == 0 {
+		w.run.Count("last_conn_swept|"+w.be.name, 1)
+	}
 }
 
 // cleanup lets the node of an abandoned connection finally notice (what the adapter
@@ -478,7 +584,7 @@ func (w *c08World) noteSweeps() {
 			// the sweeper drops the connection from the node's table first and
 			// unregisters it afterwards: the effect may show one round later
 			cl.cleaned = 2
-			z.mc.closedBy.Store(true)
+			z.mc.CloseByPeer() // the adapter's read loop ends as well
 			w.trace = append(w.trace, fmt.Sprintf("c%d:swept %s@%s", cl.idx, z.id, w.nodes[z.node].NodeID))
 			w.run.Count("zombies_swept_by_node", 1)
 			if cl.cur != nil && cl.cur.node != z.node {
@@ -541,6 +647,9 @@ func (w *c08World) isCurrent(cl *c08Client, a c08Answer) bool {
 func (w *c08World) check() {
 	w.be.sync()
 	w.noteSweeps()
+	for _, cl := range w.clients {
+		w.settleDropped(cl)
+	}
 	all := make([][]c08Answer, len(w.clients))
 	for ci, cl := range w.clients {
 		if cl.id == 0 {
@@ -595,7 +704,11 @@ func (w *c08World) judge(cl *c08Client, asker int, a c08Answer) *c08Pending {
 			w.run.Count("lookups_notconnected_other_error", 1)
 		default:
 			if how, was := cl.closed[gotConn]; was {
-				return mk("C08:reported-connected-after-close|backend="+be, map[string]any{"conn_ended_by": how, "expected": "not connected"})
+				sig := "C08:reported-connected-after-close|backend=" + be
+				if how == "swept" {
+					sig = "C08:reported-connected-after-sweep|backend=" + be
+				}
+				return mk(sig, map[string]any{"conn_ended_by": how, "expected": "not connected"})
 			}
 			for _, z := range cl.zombies {
 				if z.id == gotConn {
@@ -680,7 +793,7 @@ func (w *c08World) judge(cl *c08Client, asker int, a c08Answer) *c08Pending {
 // ---------------------------------------------------------------- exhaustive
 
 // alphabet of the enumeration (one client, two nodes)
-var c08Alpha = []string{"cA", "cB", "hb", "re", "zO", "x", "xd", "tB"}
+var c08Alpha = []string{"cA", "cB", "hb", "re", "zO", "x", "xd", "tB", "hz", "sw"}
 
 func (w *c08World) apply(cl *c08Client, sym string) bool {
 	switch sym {
@@ -694,6 +807,12 @@ func (w *c08World) apply(cl *c08Client, sym string) bool {
 		return w.heartbeat(cl)
 	case "re":
 		return w.relogin(cl)
+	case "hz":
+		return w.heartbeatZombie(cl, true)
+	case "hO":
+		return w.heartbeatZombie(cl, false)
+	case "sw":
+		return w.sweepCur(cl)
 	case "zO":
 		return w.cleanup(cl, false)
 	case "zN":
@@ -718,7 +837,7 @@ func c08NonTrivial(kinds []string) bool {
 		if len(k) == 2 && k[0] == 'c' {
 			connects++
 		}
-		if k == "x" || k == "xd" {
+		if k == "x" || k == "xd" || k == "sw" {
 			return true
 		}
 	}
@@ -737,7 +856,7 @@ func TestVerifC08Exhaustive(t *testing.T) {
 	run := vk.Start(t, "C08", "exhaustive")
 	defer run.Finish()
 	depth := run.Pick(4, 5)
-	run.Rule(fmt.Sprintf("per backend (%s), registration lifetime 5 min, two nodes, one fresh client per sequence: every applicable sequence of %d events over {connect@A, connect@B, heartbeat, re-login on current, late cleanup of the oldest abandoned connection, close current (transport end), close current (Disconnect command), tunnel-type connection on B}; all nodes looked up after every event and after closing what is left; distinct = backend x event sequence; non-trivial = contains a reconnect or a close", strings.Join(c08BackendNames, ", "), depth))
+	run.Rule(fmt.Sprintf("per backend (%s), registration lifetime 5 min, two nodes, one fresh client per sequence: every applicable sequence of %d events over {connect@A, connect@B, heartbeat, re-login on current, late cleanup of the oldest abandoned connection, close current (transport end), close current (Disconnect command), tunnel-type connection on B, late heartbeat on the newest abandoned connection, current connection closed by the node's real stale sweeper (connection aged white-box) followed by the adapter cleanup}; all nodes looked up after every event and after closing what is left; distinct = backend x event sequence; non-trivial = contains a reconnect or a close", strings.Join(c08BackendNames, ", "), depth))
 	for _, be := range c08BackendNames {
 		w := c08NewWorld(t, run, be, c08LongTTL, 2, false)
 		var rec func(seq []string)
@@ -779,7 +898,7 @@ func TestVerifC08Exhaustive(t *testing.T) {
 		}
 	}
 	run.Exhaustive(true)
-	c08Floors(run, "reconnect_then_late_cleanup", "reconnect_other_node")
+	c08Floors(run, "reconnect_then_late_cleanup", "reconnect_other_node", "zombie_heartbeat_while_current_elsewhere", "last_conn_swept")
 	run.Floor("lookups_notconnected_ok", 100)
 	run.Floor("closes_of_current", 50)
 }
@@ -797,16 +916,16 @@ func c08Applicable(seq []string, sym string) bool {
 			cur, known = true, true
 		case s == "zO" || s == "zN":
 			zombies--
-		case s == "x" || s == "xd":
+		case s == "x" || s == "xd" || s == "sw":
 			cur = false
 		}
 	}
 	switch {
 	case len(sym) == 2 && sym[0] == 'c':
 		return true
-	case sym == "hb" || sym == "re" || sym == "x" || sym == "xd":
+	case sym == "hb" || sym == "re" || sym == "x" || sym == "xd" || sym == "sw":
 		return cur
-	case sym == "zO" || sym == "zN":
+	case sym == "zO" || sym == "zN" || sym == "hz" || sym == "hO":
 		return zombies > 0
 	case sym[0] == 't':
 		return known
@@ -820,7 +939,7 @@ func TestVerifC08Random(t *testing.T) {
 	run := vk.Start(t, "C08", "random")
 	defer run.Finish()
 	nh := run.Pick(60, 1000)
-	run.Rule(fmt.Sprintf("per backend %d seeded histories of 10-40 events over two clients and three nodes, registration lifetime 5 min: connect on a random node (reconnects leave the old connection to its node), heartbeat, re-login, late cleanup of the oldest/newest abandoned connection, close of the current connection (transport end / Disconnect command), tunnel-type connections; all nodes looked up for both clients after every event; distinct = backend x event-kind sequence of a history containing a reconnect or a close", nh))
+	run.Rule(fmt.Sprintf("per backend %d seeded histories of 10-40 events over two clients and three nodes, registration lifetime 5 min: connect on a random node (reconnects leave the old connection to its node), heartbeat, re-login, late cleanup of the oldest/newest abandoned connection, close of the current connection (transport end / Disconnect command / swept by the node's real stale sweeper), late heartbeats on abandoned connections, tunnel-type connections; all nodes looked up for both clients after every event; distinct = backend x event-kind sequence of a history containing a reconnect or a close", nh))
 	for _, be := range c08BackendNames {
 		r := run.Rand("hist|" + be)
 		w := c08NewWorld(t, run, be, c08LongTTL, 3, false)
@@ -858,7 +977,7 @@ func TestVerifC08Random(t *testing.T) {
 			t.Fatalf("c08: harness error on backend %s: %s", be, herr)
 		}
 	}
-	c08Floors(run, "reconnect_then_late_cleanup", "reconnect_other_node")
+	c08Floors(run, "reconnect_then_late_cleanup", "reconnect_other_node", "zombie_heartbeat_while_current_elsewhere", "last_conn_swept")
 	run.Floor("lookups_notconnected_ok", 100)
 	run.Floor("heartbeats", 100)
 }
@@ -884,10 +1003,15 @@ func c08Pick(r *rand.Rand, cl *c08Client) string {
 		return "xd"
 	case x < 85:
 		return "re"
-	case x < 92:
+	case x < 90:
 		return "t" + node
+	case x < 96:
+		if r.Intn(2) == 0 {
+			return "hO"
+		}
+		return "hz"
 	}
-	return "hb"
+	return "sw"
 }
 
 // ---------------------------------------------------------------- keep-alive (timed)
@@ -915,8 +1039,12 @@ func c08KAScript(r *rand.Rand, explicit bool) map[int]string {
 		nxt := (cur + 1 + r.Intn(2)) % 3
 		s[p] = "c" + nodes[nxt]
 		cur = nxt
+		d := 1 + r.Intn(3)
 		if explicit {
-			s[p+1+r.Intn(3)] = "zO"
+			s[p+d] = "zO"
+		}
+		if d >= 2 && r.Intn(2) == 0 {
+			s[p+1] = "hz" // a late heartbeat on the abandoned connection (plus the regular one)
 		}
 	}
 	place(1, 4)
@@ -943,18 +1071,44 @@ func (w *c08World) runKeepAlive(script map[int]string, ticks int) {
 		if sym == "" {
 			sym = "hb"
 		}
+		if sym == "hz" {
+			if w.heartbeatZombie(cl, true) { // not applicable if its node already swept it
+				w.check()
+			}
+			sym = "hb"
+		}
 		if !w.apply(cl, sym) {
-			if cl.unsure == "" {
+			if cl.cur != nil && cl.unsure == "" {
 				w.harnessError("keep-alive script: %s not applicable at tick %d", sym, k)
 				return
 			}
 			// the node dropped the current connection (a heartbeat came too late): reconnect
-			if !w.connect(cl, cl.cur.node) {
+			if !w.connect(cl, cl.lastNode) {
 				return
 			}
 		}
 		w.check()
 		w.run.Eval(1)
+	}
+	if w.sweeper && w.herr == "" {
+		// the client falls silent: the node's sweeper closes its last live connection;
+		// once the adapter cleanup has been played every node must say "not connected"
+		deadline := time.Now().Add(5 * time.Second)
+		for cl.cur != nil && cl.unsure == "" {
+			if time.Now().After(deadline) {
+				w.run.Count("watchdog_final_sweep", 1)
+				break
+			}
+			time.Sleep(10 * time.Millisecond)
+			w.be.sync()
+			w.noteSweeps()
+		}
+		if cl.cur != nil && cl.unsure != "" {
+			w.trace = append(w.trace, "c0:fell silent until swept")
+			w.lastEv, w.lastCl = "sw", cl.idx
+			w.check() // settles the dropped connection, then judges
+			w.run.Count("silent_client_swept|"+w.be.name, 1)
+		}
 	}
 	w.closeAll()
 }
@@ -964,7 +1118,7 @@ func TestVerifC08KeepAlive(t *testing.T) {
 	defer run.Finish()
 	reps := run.Pick(2, 12)
 	ticks := 26
-	run.Rule(fmt.Sprintf("per backend x {lifetime 300 ms + explicit late cleanup, lifetime 300 ms + real stale sweeper (heartbeat timeout 150 ms, sweep every 40 ms), lifetime 5 min + real stale sweeper} %d timed histories of %d ticks of 60 ms over three nodes: connect, heartbeat on every tick (>= 4 lifetimes), one or two reconnects on another node (the old connection is left to its node), optional re-login, final close; all nodes looked up after every tick; verdicts by the interval rule only; distinct = backend x variant x script", reps, ticks))
+	run.Rule(fmt.Sprintf("per backend x {lifetime 300 ms + explicit late cleanup, lifetime 300 ms + real stale sweeper (heartbeat timeout 150 ms, sweep every 40 ms), lifetime 5 min + real stale sweeper} %d timed histories of %d ticks of 60 ms over three nodes: connect, heartbeat on every tick (>= 4 lifetimes), one or two reconnects on another node (the old connection is left to its node), optional re-login, optional late heartbeat on the abandoned connection, final close (sweeper variants: the client falls silent and its last connection is swept by the node first); all nodes looked up after every tick; verdicts by the interval rule only; distinct = backend x variant x script", reps, ticks))
 	type job struct {
 		be     string
 		v      c08KAVariant
@@ -1028,6 +1182,7 @@ func TestVerifC08KeepAlive(t *testing.T) {
 			run.Floor("kept_alive_past_ttl|"+b, 10)
 		}
 		run.Floor("reconnect_other_node|"+b, 1)
+		run.Floor("silent_client_swept|"+b, 1)
 	}
 	run.Floor("heartbeats", 200)
 }
